@@ -92,24 +92,44 @@ func Check(m *sx.Machine, units []*Unit, cfg Config) *Report {
 		cfg.Timeout = 20
 	}
 	var groups []*rawObl
-	for _, u := range units {
+	// explore all units in parallel
+	type explored struct {
+		results []sx.PathResult
+		err     error
+	}
+	exp := make([]explored, len(units))
+	{
+		var ewg sync.WaitGroup
+		esem := make(chan struct{}, cfg.Workers)
+		for i, u := range units {
+			ewg.Add(1)
+			esem <- struct{}{}
+			go func(i int, u *Unit) {
+				defer ewg.Done()
+				defer func() { <-esem }()
+				defer func() {
+					if r := recover(); r != nil {
+						exp[i].err = fmt.Errorf("engine panic in unit %s %s: %v", u.Func, u.Instance, r)
+						if cfg.Verbose {
+							buf := make([]byte, 1<<14)
+							n := runtime.Stack(buf, false)
+							exp[i].err = fmt.Errorf("%v\n%s", exp[i].err, buf[:n])
+						}
+					}
+				}()
+				exp[i].results, exp[i].err = u.Run(m)
+				// paths are no longer needed once their obligations are collected
+				for k := range exp[i].results {
+					exp[i].results[k].Path = nil
+				}
+			}(i, u)
+		}
+		ewg.Wait()
+	}
+	for i, u := range units {
 		rep.Units++
 		rep.Funcs[u.Func] = true
-		var results []sx.PathResult
-		var err error
-		func() {
-			defer func() {
-				if r := recover(); r != nil {
-					err = fmt.Errorf("engine panic in unit %s %s: %v", u.Func, u.Instance, r)
-					if cfg.Verbose {
-						buf := make([]byte, 1<<14)
-						n := runtime.Stack(buf, false)
-						err = fmt.Errorf("%v\n%s", err, buf[:n])
-					}
-				}
-			}()
-			results, err = u.Run(m)
-		}()
+		results, err := exp[i].results, exp[i].err
 		if err != nil {
 			rep.Errors = append(rep.Errors, fmt.Sprintf("%s %s: %v", u.Func, u.Instance, err))
 			continue
